@@ -42,7 +42,8 @@ ASSUMPTIONS = [
     "preset ports are int/option ports at the level of the dependant (get_default_value dispatches the depended "
     "port on the dependant's own Ports); every preset table has an rDefault fall-back",
     "no NaN / -0.0 float values (the comparison with the default is numeric)",
-    "prerequisite fixes of other properties applied: C10-02 (date test of the scanner), others in fixes/",
+    "prerequisite fixes of other properties applied: fixes/C10-02 (the scanner took \"-16 -68\" for a date), "
+    "fixes/C10-14 (a char parameter holding NUL was printed as a raw NUL); found through C12's generators",
 ]
 TRUSTED = ["hand-written abstract model RtoscModel/Save/{App,Deps,Load,Save}.lean of get_changed_values, get_default_value, "
            "canonicalize_arg_vals/map_arg_vals, first_equal_index, scan_deps, dispatch_printed_messages, save_to_file, load_from_file",
